@@ -320,7 +320,28 @@ LIST_IDENTITY = ("core::slice::<impl [T]>::iter", "core::ops::deref::Deref::dere
                  "core::iter::traits::iterator::Iterator::cloned", "alloc::slice::<impl [T]>::to_vec")
 
 
+ITER_MUT_SELF = ("next", "next_back", "nth", "nth_back", "by_ref", "any", "all", "find", "position", "rposition", "find_map", "try_fold", "try_for_each", "size_hint")
+ITER_EAGER = ("sum", "product", "count", "collect", "fold", "for_each", "last", "max", "min", "max_by_key", "min_by_key", "max_by", "min_by", "unzip", "partition", "eq", "ne", "cmp", "lt", "le", "gt", "ge")
+ITER_TYPES = ("core::slice::iter::", "alloc::vec::into_iter::", "alloc::vec::drain::", "core::iter::", "core::str::iter::", "core::ops::range::Range", "core::option::Iter", "core::option::IntoIter",
+              "std::collections::hash", "core::array::iter::", "alloc::collections::", "core::char::", "alloc::string::Drain")
+
+
+def is_iter_ty(ty):
+    """Does a THIR type string name an iterator (as opposed to a collection or a reference to one)?"""
+    ty = ty or ""
+    while ty.startswith("&"):
+        ty = ty[1:].lstrip()
+        if ty.startswith("mut "):
+            ty = ty[4:]
+    return ty.startswith(ITER_TYPES) and not ty.startswith(("alloc::collections::btree::map::BTreeMap<", "alloc::collections::btree::set::BTreeSet<", "alloc::collections::vec_deque::VecDeque<"))
+
+
 class Interp:
+    def arg_ty(self, a):
+        while isinstance(a, dict) and a.get("k") in ("Scope", "Use", "Coerce") and isinstance(a.get("e"), dict) and not a.get("ty"):
+            a = a["e"]
+        return (a.get("ty") if isinstance(a, dict) else None) or ""
+
     def __init__(self, facts, max_depth=6, extern=None):
         self.facts = facts
         self.max_depth = max_depth
@@ -735,7 +756,10 @@ class Interp:
             if isinstance(n_, dict) and n_.get("k") == "Loop":
                 mine = n_.get("scope")          # the desugared `loop` of this `for`
                 break
+        consume = isinstance(itv, list) and self.arg_ty(it).startswith("&mut ") and is_iter_ty(self.arg_ty(it))      # `for x in it.by_ref()` / `&mut it`: what is left stays in `it`
         for x in seq:
+            if consume and itv:
+                del itv[0]
             env2 = env
             if not self.match_pat(pat, x, env2):
                 raise Unknown("loop pattern")
@@ -856,8 +880,15 @@ class Interp:
                 v = self.hash_order(list(v.items))
             if isinstance(v, HMap):
                 v = self.hash_order([(k_, x_) for k_, x_ in v.items()])
+            if isinstance(v, Enum) and v.adt in ("Range", "RangeInclusive") and isinstance(v.fields.get("start"), int) and isinstance(v.fields.get("end"), int) \
+                    and v.fields["end"] - v.fields["start"] <= 65536:
+                v = list(range(v.fields["start"], v.fields["end"] + (1 if v.adt == "RangeInclusive" else 0)))
             if not isinstance(v, (list, tuple)):
                 raise Unknown("collect of %r" % (v,))
+            if isinstance(v, list) and gen.endswith("Iterator::collect") and self.arg_ty(args[0]).startswith("&mut ") and is_iter_ty(self.arg_ty(args[0])):
+                v0_ = v
+                v = list(v)
+                del v0_[:]              # `it.by_ref().collect()` leaves `it` empty
             ty = (e.get("ty") or "").replace("std::collections::hash::set::", "").replace("std::collections::hash::map::", "").replace("std::collections::", "")
             if ty.startswith("HashSet<"):
                 return HSet(v)
@@ -889,6 +920,12 @@ class Interp:
             v = v.get() if isinstance(v, Ref) else v
             if isinstance(v, list):
                 return [x if isinstance(x, (list, Enum, HSet, HMap)) else Ref(v, i) for i, x in enumerate(v)]
+        if gen in ("core::iter::adapters::peekable::Peekable::<I>::peek", "core::iter::adapters::peekable::Peekable::<I>::peek_mut"):
+            v = self.ev(args[0], env, depth)
+            v = v.get() if isinstance(v, Ref) else v
+            if isinstance(v, (list, tuple)):
+                return Enum("Option", "Some", {"0": v[0]}) if v else Enum("Option", "None")
+            raise Unknown("peek on %r" % (v,))
         if gen in LIST_IDENTITY:
             v = self.ev(args[0], env, depth)
             if isinstance(v, Ref) and isinstance(v.get(), (HSet, HMap, list)):
@@ -901,6 +938,9 @@ class Interp:
                 v1 = v.get() if isinstance(v, Ref) else v
                 if isinstance(v1, Enum) and v1.adt == "Located" and "node" in v1.fields and (e.get("self") or "").startswith("rssl_text::location::Located"):
                     return v1.fields["node"]           # Located<T> derefs to its node
+            if isinstance(v, list) and (gen == "core::slice::<impl [T]>::iter" or (gen.endswith("IntoIterator::into_iter") and not (e.get("self") or e.get("ty") or "").startswith("&mut ")
+                                                                                       and not is_iter_ty(self.arg_ty(args[0])))):
+                return list(v)          # an iterator is a value of its own: `next` consumes it, not the collection
             if isinstance(v, (list, tuple)) or gen.endswith(("Deref::deref", "DerefMut::deref_mut")):
                 return v
             raise Unknown("%s on %r" % (short(gen), v))
@@ -913,10 +953,41 @@ class Interp:
                 hi_ = v.fields["end"] + (1 if v.adt == "RangeInclusive" else 0)
                 if hi_ - v.fields["start"] > 65536:
                     raise Unknown("range too long for a table")
+                if m == "next" and v.adt == "Range":
+                    if v.fields["start"] >= hi_:
+                        return Enum("Option", "None")
+                    v.fields["start"] += 1          # the range is its own iterator
+                    return Enum("Option", "Some", {"0": v.fields["start"] - 1})
                 v = list(range(v.fields["start"], hi_))
             if not isinstance(v, (list, tuple)):
                 raise Unknown("iterator method %s on %r" % (m, v))
+            raw = v
             v = list(v)
+            if m in ("by_ref", "peekable", "fuse"):
+                return raw
+            if isinstance(raw, list) and m not in ITER_MUT_SELF and self.arg_ty(args[0]).startswith("&mut ") and is_iter_ty(self.arg_ty(args[0])):
+                # a by-value method on `it.by_ref()` / `&mut it`: what it consumes is gone from `it`
+                if m == "take":
+                    k2 = self.ev(args[1], env, depth)
+                    if not isinstance(k2, int):
+                        raise Unknown("skip/take count")
+                    del raw[:k2]
+                    return v[:k2]
+                if m not in ITER_EAGER:
+                    raise Unknown("lazy adaptor %s on a borrowed iterator" % m)
+                del raw[:]
+            if m == "try_for_each":
+                c = self.ev(args[1], env, depth)
+                for x in v:
+                    if isinstance(raw, list) and raw:
+                        del raw[0]
+                    r_ = self.call_callable(c, [x], depth)
+                    if isinstance(r_, Enum) and r_.variant in ("Err", "None", "Break"):
+                        return r_
+                    if not (isinstance(r_, Enum) and r_.variant in ("Ok", "Some", "Continue")):
+                        raise Unknown("try_for_each closure result %r" % (r_,))
+                ty_ = e.get("ty") or ""
+                return Enum("Option", "Some", {"0": ()}) if ty_.startswith("core::option::Option") else (Enum("ControlFlow", "Continue", {"0": ()}) if "ControlFlow" in ty_ else Enum("Result", "Ok", {"0": ()}))
             if m in ("filter_map", "flat_map", "find_map", "for_each", "inspect"):
                 c = self.ev(args[1], env, depth)
                 out_ = []
@@ -928,6 +999,8 @@ class Interp:
                         elif not (isinstance(r_, Enum) and r_.variant == "None"):
                             raise Unknown("filter_map closure result %r" % (r_,))
                     elif m == "find_map":
+                        if isinstance(raw, list) and raw:
+                            del raw[0]
                         if isinstance(r_, Enum) and r_.variant == "Some":
                             return r_
                     elif m == "flat_map":
@@ -947,6 +1020,9 @@ class Interp:
                 if not isinstance(c, (PyClosure, PyFn)):
                     raise Unknown("iterator method %s without a closure" % m)
                 rs = [self.call_callable(c, [x], depth) for x in v]
+                if isinstance(raw, list) and m in ("any", "all", "position", "find"):
+                    stop_ = [i for i, r in enumerate(rs) if self.truth(r) == (m != "all")]     # these take &mut self and stop at the first hit
+                    del raw[:(stop_[0] + 1) if stop_ else len(raw)]
                 if m == "any":
                     return any(self.truth(r) for r in rs)
                 if m == "all":
@@ -974,11 +1050,22 @@ class Interp:
                     raise Unknown("zip with %r" % (o,))
                 return [(a_, b_) for a_, b_ in zip(v, o)]
             if m in ("nth", "next", "last", "next_back"):
+                cons = isinstance(raw, list)        # (tuples are fixed tables built by rules; nothing consumes them twice)
                 if m == "nth":
                     k_ = self.ev(args[1], env, depth)
-                    return Enum("Option", "Some", {"0": v[k_]}) if isinstance(k_, int) and 0 <= k_ < len(v) else Enum("Option", "None")
+                    ok_ = isinstance(k_, int) and 0 <= k_ < len(v)
+                    if cons:
+                        del raw[:(k_ + 1) if ok_ else len(raw)]
+                    return Enum("Option", "Some", {"0": v[k_]}) if ok_ else Enum("Option", "None")
                 if not v:
                     return Enum("Option", "None")
+                if cons:
+                    if m == "next":
+                        del raw[0]
+                    elif m == "next_back":
+                        del raw[-1]
+                    else:
+                        del raw[:]
                 return Enum("Option", "Some", {"0": v[0] if m == "next" else v[-1]})
             if m in ("rposition", "take_while", "skip_while", "partition", "max_by_key", "min_by_key", "map_while"):
                 c_ = self.ev(args[1], env, depth)
